@@ -31,6 +31,14 @@ kernels; ROUND = 1e-13 covers the backward error of the factorisations on both s
 is raised (x10 steps) until eps * cond(A) <= 5e-4 (cond <= 5e4 resp. 5e9), so that the first-order bounds are valid, the
 AddJitterOp search never has to add jitter and no relative tolerance exceeds ~1e-3 ("capped by construction").
 
+Aliasing scenarios: every array handed to the posterior-state constructors, update / sample_and_update /
+expand_fantasies, predict and the low-level entry points (features, targets, noise variance, covariance scale of the
+tuple form, new rows, fantasy rows, mean_impute_mask, test features, normal draws) and the returned sampled targets are
+overwritten IN PLACE by the caller right after each call.  Clause "state-does-not-alias-the-caller's-arrays": all later
+results equal those of a control run of the same calls on untouched private copies (and the stored features / noise
+variance equal the original values); the results are also compared with the dense reference of the ORIGINAL values and
+a library recompute from them under the incremental-update / predictive clauses.
+
 Bounded stand-in, never counted as proved.
 """
 import logging
@@ -55,6 +63,7 @@ CLAUSES = [
     "product-kernel-equals-product",
     "expdecay-kernel-equals-formula",
     "gp-regression-predict-equals-dense",
+    "state-does-not-alias-the-caller's-arrays",
 ]
 
 FLOOR = 1e-12  # MIN_POSTERIOR_VARIANCE (checked against the library constant at run time)
@@ -1111,6 +1120,8 @@ def run_case(E, ctx, rs, case_id, kind, n, d, n_test, m, data_mode, mode, mean_k
         n_upd = int(min(n - 1, 1 + rs.randint(3)))
         n0 = n - n_upd
         incremental_checks(E, ctx, rs, X, Xs, Y, n0, mean_fn, lib_kernel, s2arr, K, kref, mean_ref, s2, eps_eff, m, kabs)
+        ctx.clause = CL_ALIAS
+        aliasing_checks(E, ctx, rs, X, Xs, Y, n0, mean_fn, plain, osc, K, kref, mean_ref, s2, eps_eff, m, kabs)
 
     # ---- GaussianProcessRegression ---------------------------------------------------------------------------------------
     if model is not None:
@@ -1239,6 +1250,170 @@ def incremental_checks(E, ctx, rs, X, Xs, Y, n0, mean_fn, lib_kernel, s2arr, K, 
 
 def _sym(M):
     return 0.5 * (M + M.T)
+
+
+CL_ALIAS = "state-does-not-alias-the-caller's-arrays"
+
+
+def _scribble(*arrays):
+    """the caller recycles its buffers: overwrite IN PLACE with different (finite, for the noise / scale positive) values"""
+    for a in arrays:
+        if a is None:
+            continue
+        if a.dtype == bool:
+            a[...] = ~a
+        else:
+            a[...] = np.abs(a) * 37.0 + 0.3
+
+
+def aliasing_checks(E, ctx, rs, X, Xs, Y, n0, mean_fn, plain, osc, K, kref, mean_ref, s2, eps, m, kabs):
+    """Every array handed to the posterior-state constructors / update methods / predict (features, targets, noise
+    variance, covariance scale of the tuple form, new feature / target rows, fantasy rows, mean_impute_mask, test
+    features, the prescribed normal draws) and every array handed back (sampled targets) is overwritten in place by
+    the caller right after the call, before the next operation.  A CONTROL run performs the same sequence of library
+    calls on private copies which are never touched.
+      clause CL_ALIAS: the overwritten run equals the control run (same code, same values: round-off free) and the
+                       stored features / noise variance equal the original values;
+      dense clauses:   the overwritten run equals the dense reference computed from the ORIGINAL values
+                       (incremental-update clause for incremental states, incl. a library recompute from scratch;
+                       predictive-mean / -variance clauses for the plain state)."""
+    pu, ps = E.pu, E.ps
+    n = X.shape[0]
+    CLI = "incremental-update-equals-recompute"
+    Kss = _sym(kref(Xs, Xs))
+    s2ref = np.array([s2])
+
+    def ref_kernel():
+        return plain if osc == 1.0 else (plain, np.array([osc]))
+
+    def dense_for(t, Yt):
+        return Dense(K[:t, :t], kref(X[:t], Xs), Kss, s2, mean_ref(X[:t]), mean_ref(Xs), Yt, eps, kabs)
+
+    def same(tag, got, want):
+        got, want = np.asarray(got, dtype=np.float64), np.asarray(want, dtype=np.float64)
+        ctx.check(CL_ALIAS, tag + ": run with overwritten caller arrays vs untouched control run", got, want, 1e-12 * (np.abs(want) + (float(np.max(np.abs(want))) if want.size else 0.0)))
+
+    def compare(tag, st, ctrl, t, Yt, incremental):
+        r = dense_for(t, Yt)
+        tX = Xs.copy()
+        mi, vi = st.predict(tX)
+        _scribble(tX)
+        mi, vi = np.array(mi, copy=True), np.array(vi, copy=True)
+        mc, vc = ctrl.predict(Xs.copy())
+        same(tag + " mean", mi, mc)
+        same(tag + " variance", vi, vc)
+        same(tag + " Cholesky factor", st.chol_fact, ctrl.chol_fact)
+        same(tag + " prediction matrix", st.pred_mat, ctrl.pred_mat)
+        ctx.check(
+            CL_ALIAS,
+            tag + " stored features / noise variance vs original values",
+            np.concatenate([np.asarray(st.features).reshape(-1), np.asarray(st.noise_variance).reshape(-1)]),
+            np.concatenate([X[:t].reshape(-1), s2ref]),
+            0.0,
+        )
+        pre = "caller overwrites its arrays: " + tag
+        if incremental:
+            ctx.check(CLI, pre + " mean vs dense of the original values", mi, r.means, r.tol_mean)
+            ctx.check(CLI, pre + " variance vs dense of the original values", vi, r.var, r.tol_var)
+            sc = ps.GaussProcPosteriorState(features=X[:t].copy(), targets=Yt.copy(), mean=mean_fn, kernel=ref_kernel(), noise_variance=s2ref.copy())
+            ms, vs = sc.predict(Xs.copy())
+            ctx.check(CLI, pre + " mean vs library recompute", mi, np.asarray(ms), r.tol_mean)
+            ctx.check(CLI, pre + " variance vs library recompute", vi, np.asarray(vs), r.tol_var)
+            if Yt.shape[1] == 1:
+                ctx.check(CLI, pre + " NLML vs dense of the original values", _f(st.neg_log_likelihood()), r.nlml, r.tol_nlml)
+        else:
+            ctx.check("predictive-mean-equals-dense", pre, mi, r.means, r.tol_mean)
+            ctx.check("predictive-variance-equals-dense", pre, vi, r.var, r.tol_var)
+            if Yt.shape[1] == 1:
+                ctx.check("nlml-equals-dense", pre, _f(st.neg_log_likelihood()), r.nlml, r.tol_nlml)
+        return r
+
+    def new_state(cls, t, Yt):
+        tuple_form = not (osc == 1.0 and rs.uniform() < 0.5)
+        fX, fY, nb = X[:t].copy(), Yt.copy(), np.array([s2])
+        cbuf = np.array([osc]) if tuple_form else None
+        st = cls(features=fX, targets=fY, mean=mean_fn, kernel=(plain, cbuf) if tuple_form else plain, noise_variance=nb)
+        _scribble(fX, fY, nb, cbuf)
+        ctrl = cls(features=X[:t].copy(), targets=Yt.copy(), mean=mean_fn, kernel=(plain, np.array([osc])) if tuple_form else plain, noise_variance=np.array([s2]))
+        return st, ctrl, (fX, fY, nb, cbuf)
+
+    # A: plain posterior state: constructor arguments overwritten, then every query
+    st, ctrl, bufs = new_state(ps.GaussProcPosteriorState, n, Y)
+    compare("GaussProcPosteriorState(...); overwrite;", st, ctrl, n, Y, False)
+    n_test = Xs.shape[0]
+    z = rs.normal(size=(n_test, m, 1))
+    tX = Xs.copy()
+    stub = StubRandomState([z])
+    zbuf = stub.queue[0]
+    smp = np.array(st.sample_marginals(tX, num_samples=1, random_state=stub), copy=True)
+    _scribble(tX, zbuf)
+    same("GaussProcPosteriorState(...); overwrite; sample_marginals", smp, ctrl.sample_marginals(Xs.copy(), num_samples=1, random_state=StubRandomState([z])))
+
+    # B: incremental state: update() with rows which are overwritten after each call; the noise / scale buffers are
+    # overwritten again (with yet other values) between the updates
+    st, ctrl, bufs = new_state(ps.IncrementalUpdateGPPosteriorState, n0, Y[:n0])
+    compare("Incremental(...); overwrite;", st, ctrl, n0, Y[:n0], True)
+    for t in range(n0, n):
+        xb, yb = X[t : t + 1].copy(), Y[t : t + 1].copy()
+        if rs.uniform() < 0.5:
+            xb = xb.reshape(-1)  # update() reshapes: views of the caller's row
+        st_old, ctrl_old = st, ctrl
+        st = st.update(xb, yb)
+        ctrl = ctrl.update(X[t : t + 1].copy(), Y[t : t + 1].copy())
+        _scribble(xb, yb, *bufs)
+        compare("update#%d; overwrite;" % (t - n0 + 1), st, ctrl, t + 1, Y[: t + 1], True)
+        if t == n0:
+            compare("old state after update#1 + overwrite", st_old, ctrl_old, t, Y[:t], True)
+
+    # C: expand_fantasies, then fantasy rows
+    if m > 1:
+        st, ctrl, bufs = new_state(ps.IncrementalUpdateGPPosteriorState, n0, Y[:n0, :1])
+        st, ctrl = st.expand_fantasies(m), ctrl.expand_fantasies(m)
+        _scribble(*bufs)
+        Yb = np.tile(Y[:n0, :1], (1, m))
+        for t in range(n0, n):
+            xb, yb = X[t : t + 1].copy(), Y[t : t + 1].copy()
+            st = st.update(xb, yb)
+            ctrl = ctrl.update(X[t : t + 1].copy(), Y[t : t + 1].copy())
+            _scribble(xb, yb, *bufs)
+            Yb = np.concatenate([Yb, Y[t : t + 1]], axis=0)
+        compare("expand_fantasies + %d fantasy rows; overwrite;" % (n - n0), st, ctrl, n, Yb, True)
+
+    # D: sample_and_update: feature, mask, the normal draws and the RETURNED target are overwritten
+    st, ctrl, bufs = new_state(ps.IncrementalUpdateGPPosteriorState, n0, Y[:n0])
+    Yc = Y[:n0].copy()
+    for t in range(n0, n):
+        z = rs.uniform(0.5, 2.0, size=(1, m)) * rs.choice([-1.0, 1.0], size=(1, m))
+        mask = (rs.uniform(size=m) < 0.5) if (m > 1 and rs.uniform() < 0.6) else None
+        stub = StubRandomState([z])
+        zbuf = stub.queue[0]
+        xb = X[t : t + 1].copy()
+        mb = None if mask is None else mask.copy()
+        target, st = st.sample_and_update(xb, mean_impute_mask=mb, random_state=stub)
+        kept = np.array(target, copy=True)
+        target_c, ctrl = ctrl.sample_and_update(X[t : t + 1].copy(), mean_impute_mask=None if mask is None else mask.copy(), random_state=StubRandomState([z]))
+        _scribble(xb, mb, zbuf, *bufs)
+        if isinstance(target, np.ndarray) and target.flags.writeable:
+            _scribble(target)
+        same("sample_and_update#%d target" % (t - n0 + 1), kept, target_c)
+        if kept.shape != (1, m):
+            break
+        Yc = np.concatenate([Yc, kept], axis=0)
+        compare("sample_and_update#%d; overwrite (incl. returned target);" % (t - n0 + 1), st, ctrl, t + 1, Yc, True)
+
+    # E: low-level entry points return fresh arrays
+    fX, fY, nb, cbuf = X[:n0].copy(), Y[:n0].copy(), np.array([s2]), np.array([osc])
+    L0, P0 = pu.cholesky_computations(fX, fY, mean_fn, (plain, cbuf), nb)
+    _scribble(fX, fY, nb, cbuf)
+    Lc, Pc = pu.cholesky_computations(X[:n0].copy(), Y[:n0].copy(), mean_fn, (plain, np.array([osc])), np.array([s2]))
+    same("cholesky_computations; overwrite; Cholesky factor", L0, Lc)
+    same("cholesky_computations; overwrite; prediction matrix", P0, Pc)
+    xb, yb, nb2 = X[n0 : n0 + 1].copy(), Y[n0 : n0 + 1].copy(), np.array([s2])
+    L1, P1 = pu.cholesky_update(X[:n0].copy(), mean_fn, ref_kernel(), L0, P0, nb2, xb, yb)
+    _scribble(xb, yb, nb2)
+    L1c, P1c = pu.cholesky_update(X[:n0].copy(), mean_fn, ref_kernel(), Lc, Pc, np.array([s2]), X[n0 : n0 + 1].copy(), Y[n0 : n0 + 1].copy())
+    same("cholesky_update; overwrite; Cholesky factor", L1, L1c)
+    same("cholesky_update; overwrite; prediction matrix", P1, P1c)
 
 
 # --------------------------------------------------------------------------------------------------------------
